@@ -2,6 +2,7 @@
 // stateless rows of the C05 catalogue (bit helpers, div_sat, chrono day/month, layout mappings, array in the SAFE
 // configuration) injected as one-shot fault steps between them.
 // Oracles: contract (C05), memory (C02: every element a view exposes is read; the buffers are exact-size).
+#include <etl/algorithm.hpp>
 #include <etl/array.hpp>
 #include <etl/bit.hpp>
 #include <etl/chrono.hpp>
@@ -649,6 +650,39 @@ struct ViewDriver : DriverBase<ViewDriver> {
             }
             return;
         }
+        if (op == "algo_fill_n") {
+            // etl::fill_n over an exact-size buffer with a signed count that may be zero or negative ("does nothing")
+            size_t const len = 1 + static_cast<size_t>(st.k[0] % 8);
+            ExactBuf<int> buf(len);
+            for (size_t i = 0; i < len; ++i) {
+                buf.p[i] = 5;
+            }
+            int const count = static_cast<int>(st.k[1] % (len + 3)) - 2; // -2 … len
+            int const which = static_cast<int>(st.k[2] % 3);
+            ctx.log.kv("len", static_cast<long long>(len));
+            ctx.log.kv("count", count);
+            long ret = -1;
+            bool ok  = call(-1, false, false, [&] {
+                int* r = nullptr;
+                switch (which) {
+                case 0: r = etl::fill_n(buf.p, static_cast<signed char>(count), 9); break;
+                case 1: r = etl::fill_n(buf.p, static_cast<short>(count), 9); break;
+                default: r = etl::fill_n(buf.p, count, 9); break;
+                }
+                ret = r - buf.p;
+            });
+            if (ok) {
+                long const want = count > 0 ? count : 0;
+                bool same       = ret == want;
+                for (size_t i = 0; i < len; ++i) {
+                    same = same && buf.p[i] == (static_cast<long>(i) < want ? 9 : 5);
+                }
+                if (!same) {
+                    ctx.violation("C06", "diff:fill_n", "fill_n did not write exactly max(count, 0) elements"); // foreign
+                }
+            }
+            return;
+        }
         if (op == "array_index") {
             // etl::array::operator[] is only guarded by TETL_PRECONDITION_SAFE: injected only in the SAFE configuration
             etl::array<int, 4> arr{1, 2, 3, 4};
@@ -712,7 +746,7 @@ struct ViewDriver : DriverBase<ViewDriver> {
             {"sp_reset", 3},  {"sp_first", 5},         {"sp_last", 5},           {"sp_subspan", 7}, {"sp_access", 6}, {"sp_static", 3}, {"sv_reset", 3},
             {"sv_remove_prefix", 6}, {"sv_remove_suffix", 6}, {"sv_substr", 7}, {"sv_copy", 4},    {"sv_access", 6}, {"sv_search", 6}, {"sv_parse", 4}, {"bit8", 3},
             {"bit16", 2},     {"bit32", 3},            {"bit64", 3},             {"div_sat", 3},    {"chrono_day_month", 3}, {"layout_stride", 3},
-            {"array_index", 3},
+            {"array_index", 3}, {"algo_fill_n", 2},
         };
         return o;
     }
